@@ -4,7 +4,7 @@
 //! NaT duration), `dn` (+ `dsec` seconds) = nanoseconds of the duration, `kf` = i32 factor; the key names
 //! are deliberately not shared with other properties' requests):
 //!   c16_into_unit ua ub tx   -> into_unit ; Cast<DateTime<ub>> ; chrono oracle
-//!   c16_opt_i64   ua tx      -> into_opt_i64 ; Cast<Option<i64>> ; is_none ; from_opt_i64∘into_opt_i64 ; Cast from Option<i64> ; to_opt
+//!   c16_opt_i64   ua tx      -> into_opt_i64 ; Cast<Option<i64>> ; is_none ; from_opt_i64∘into_opt_i64 ; Cast from Option<i64> ; to_opt ; null flags of the casts to Option<i32|u64|usize|isize|u8|f32|f64> (the bool target rejects values other than 0/1: C15)
 //!   c16_as_cr     ua tx      -> as_cr instant in ns ; field getters ; From<chrono>(as_cr) ; chrono field oracle
 //!   c16_from_cr   ua sec nano -> From<chrono> ; as_cr of it (instant in ns) ; From<Option<NaiveDateTime>> Some / None
 //!   c16_dt_add / c16_dt_sub  ua tx mo dn ; c16_dt_diff ua tx ty
@@ -180,7 +180,14 @@ pub fn run(r: &Req) -> Option<String> {
             let e = dt_tok(DateTime::<U>::from_opt_i64(t.into_opt_i64()));
             let g: DateTime<U> = Cast::<DateTime<U>>::cast(t.into_opt_i64());
             let h = if t.to_opt().is_some() { "1" } else { "0" };
-            format!("{};{};{};{};{};{}", a, b, c, e, dt_tok(g), h)
+            // the other optional targets of impl_time_cast!: null exactly for NaT (the value itself is C15's)
+            fn fl<X>(o: Option<X>) -> char { if o.is_none() { '1' } else { '0' } }
+            let k: String = [
+                fl(Cast::<Option<i32>>::cast(t)), fl(Cast::<Option<u64>>::cast(t)), fl(Cast::<Option<usize>>::cast(t)),
+                fl(Cast::<Option<isize>>::cast(t)), fl(Cast::<Option<u8>>::cast(t)),
+                fl(Cast::<Option<f32>>::cast(t)), fl(Cast::<Option<f64>>::cast(t)),
+            ].iter().collect();
+            format!("{};{};{};{};{};{};{}", a, b, c, e, dt_tok(g), h, k)
         }),
         "c16_as_cr" => with_unit!(u, U => {
             let t = dt_of::<U>(x);
